@@ -59,7 +59,7 @@ func VH_C08_hist(k int, first int, second int) {
 		if i == 1 && second >= 0 {
 			ev = second
 		} else if i > 0 {
-			ev = vChoose(8)
+			ev = vChoose(9)
 		}
 		var in interface{}
 		var err error
@@ -90,6 +90,10 @@ func VH_C08_hist(k int, first int, second int) {
 			err = x.feedSN(w)
 		case 6:
 			w := vSNPacket(vtWILLMSG, 1).(*snPkts1.WillMsg)
+			in = w
+			err = x.feedSN(w)
+		case 8: // empty WILLMSG
+			w := vSNPacket(vtWILLMSG, 0).(*snPkts1.WillMsg)
 			in = w
 			err = x.feedSN(w)
 		case 7: // the broker answers a pending CONNECT
